@@ -594,7 +594,11 @@ func (r *run) sendBad(c int) error {
 				return nil
 			}
 			if inq(conn) > in0 {
-				r.note("bad-frame-answered", "the parent answered a malformed unit (%s type=%d declared=%d carried=%d)", v.Cls, v.Type, v.Declared, v.Carried)
+				res := readReply(conn, 200*time.Millisecond)
+				k := fmt.Sprint(c)
+				r.out.Replies[k] = append(r.out.Replies[k], res.name)
+				r.log("recv", c, res.name)
+				r.note("bad-frame-answered", "the parent answered a malformed unit (%s type=%d declared=%d carried=%d) with %s", v.Cls, v.Type, v.Declared, v.Carried, res.name)
 				return nil
 			}
 			select {
